@@ -15,6 +15,7 @@ package main
 // fails to verify.
 
 import (
+	"fmt"
 	"encoding/json"
 	"go/ast"
 	"go/types"
@@ -306,6 +307,9 @@ func findFuncRenames(P *Program) bool {
 			}
 		}
 		if len(cands) == 1 {
+			if os.Getenv("GOVC_DEBUG") != "" {
+				fmt.Fprintln(os.Stderr, "function rename:", k, "<-", cands[0])
+			}
 			funcRenamed[cands[0]] = k
 			taken[cands[0]] = true
 			found = true
